@@ -1,0 +1,21 @@
+//go:build verif
+
+package common
+
+import "github.com/privacybydesign/gabi/big"
+
+// VerifSentinels returns the package-level integer constants with the values they must keep for the
+// whole life of the process (the verification harness checks them after every run: an operation that
+// writes its result into one of them would silently change every later computation).
+func VerifSentinels() map[string][2]*big.Int {
+	return map[string][2]*big.Int{
+		"common.bigZERO":            {bigZERO, big.NewInt(0)},
+		"common.bigONE":             {bigONE, big.NewInt(1)},
+		"common.bigTWO":             {bigTWO, big.NewInt(2)},
+		"common.bigTHREE":           {bigTHREE, big.NewInt(3)},
+		"common.bigFOUR":            {bigFOUR, big.NewInt(4)},
+		"common.bigFIVE":            {bigFIVE, big.NewInt(5)},
+		"common.bigEIGHT":           {bigEIGHT, big.NewInt(8)},
+		"common.SmallPrimesProduct": {SmallPrimesProduct, new(big.Int).SetUint64(16294579238595022365)},
+	}
+}
